@@ -989,12 +989,10 @@ class LogixDriver(CIPDriver):
                 self._cfg["use_instance_ids"],
             )
             request.build_message()
-            # TODO: this isn't very accurate right now, the message len is not part of the response
-            # so we may be fragmenting more than needed
-            return_size = (
-                _tag_return_size(tag_data) + len(request.message) + 2
-            )  # response overhead  # TODO make const
-            if return_size > self.connection_size:
+            # size of this service's reply inside a multi-service reply:
+            # offset (2) + reply header (4) + data type (2, or 4 for structures) + data
+            return_size = _tag_return_size(tag_data) + 10
+            if return_size + MULTISERVICE_READ_OVERHEAD > self.connection_size:
                 request = ReadTagFragmentedRequestPacket.from_request(self._sequence, request)
                 fragmented_requests.append(request)
             else:
@@ -1036,7 +1034,8 @@ class LogixDriver(CIPDriver):
                 self._cfg["use_instance_ids"],
             )
 
-            return_size = _tag_return_size(parsed_tag) + len(request.message)
+            # sequence count (2) + reply header (4) + data type (2, or 4 for structures) + data
+            return_size = _tag_return_size(parsed_tag) + 10
             if return_size > self.connection_size:
                 request = ReadTagFragmentedRequestPacket.from_request(self._sequence, request)
 
@@ -1164,7 +1163,7 @@ class LogixDriver(CIPDriver):
                 request._msg_setup = False
 
                 req_size = len(request.message)
-                if req_size > self.connection_size:
+                if req_size + MULTISERVICE_READ_OVERHEAD > self.connection_size:
                     request = WriteTagFragmentedRequestPacket.from_request(self._sequence, request)
                     fragmented_requests.append(request)
                 else:
